@@ -1,1 +1,13 @@
+//! Verification harness for meshless_voronoi (property-based testing and fuzzing).
+pub mod case;
+pub mod gen;
+pub mod known;
+pub mod obs;
+pub mod props;
+pub mod refmodel;
+pub mod runner;
+pub mod tol;
 
+pub fn verif_root() -> String {
+    std::env::var("MVV_VERIF_ROOT").unwrap_or_else(|_| "/verif".to_string())
+}
